@@ -179,12 +179,67 @@ def _init_worker(fn_module, fn_name, init_name):
         getattr(mod, init_name)()
 
 
+class ImplementationCrash(Exception):
+    """The code under test raised an exception on an input of the enumeration (raised inside /repo/src, not in the harness)."""
+
+    def __init__(self, text, module_name, fn_name, shard, partial=None):
+        super().__init__(text)
+        self.text, self.module_name, self.fn_name, self.shard = text, module_name, fn_name, shard
+        self.partial = partial or {}
+
+
+def _raised_in_implementation(exc):
+    """True if the innermost frame of the traceback lies in the cutadapt sources (a harness bug ends in a /verif frame)."""
+    tb = traceback.extract_tb(exc.__traceback__)
+    if not tb:
+        return False
+    fn = tb[-1].filename.replace("\\", "/")
+    return "/verif/" not in fn and ("/src/cutadapt/" in fn or fn.startswith("src/cutadapt/") or fn.startswith(os.path.join(REPO, "src")))
+
+
 def _run_one(args):
     idx, desc = args
     try:
         return idx, _SHARD_FN(desc), None
-    except BaseException:  # noqa
-        return idx, None, traceback.format_exc()
+    except BaseException as e:  # noqa
+        kind = "impl" if isinstance(e, Exception) and _raised_in_implementation(e) else "harness"
+        return idx, None, (kind, traceback.format_exc())
+
+
+def _raise_crashes(crashes, results, module_name, fn_name):
+    """The other shards were still run to the end: their counters go into the evidence of the failing run."""
+    done = [r for r in results if isinstance(r, dict)]
+    partial = dict(shards_completed=len(done), shards_crashed=len(crashes),
+                   evals=sum(int(r.get("evals", 0)) for r in done if isinstance(r.get("evals", 0), int)),
+                   nontrivial=sum(int(r.get("nontrivial", 0)) for r in done if isinstance(r.get("nontrivial", 0), int)))
+    shard, text = crashes[0]
+    raise ImplementationCrash(text, module_name, fn_name, shard, partial)
+
+
+def report_crash(prop, tier, level, crash):
+    """An exception inside the implementation on an enumerated input: evidence + VIOLATION line + replay artefact; returns 1."""
+    R = Result(prop, tier, level)
+    last = [ln for ln in crash.text.strip().split("\n") if ln.strip()][-1]
+    R.violation(f"crash:{last.split(':')[0].strip()[:40]}", "the code under test raised an exception on an enumerated input: " + last[:200],
+                dict(crash=True, module=crash.module_name, fn=crash.fn_name, shard=crash.shard, traceback=crash.text[-3000:]))
+    R.notes.append("an exception raised inside the implementation ended this pass; later passes of the check were not run")
+    R.sample(dict(shard=crash.shard, exception=last[:200]))
+    p = crash.partial
+    R.counters = dict(p)
+    return R.finish(p.get("evals", 0) + p.get("shards_crashed", 1), p.get("nontrivial", 0) + p.get("shards_crashed", 1),
+                    "a shard of the enumeration ended in an exception raised inside the implementation; the counts are those of the "
+                    "shards of the same pass that ran to the end plus one per crashed shard", False)
+
+
+def replay_crash(case):
+    """Re-run the shard that crashed; 1 if the implementation raises again, 0 otherwise."""
+    try:
+        pmap(case["module"], case["fn"], [case["shard"]], nproc=1)
+    except ImplementationCrash as e:
+        print(e.text)
+        return 1
+    print("[verif] the shard runs to completion now")
+    return 0
 
 
 def pmap(module_name, fn_name, shards, init_name=None, nproc=None, progress=None, maxtasks=None):
@@ -197,26 +252,37 @@ def pmap(module_name, fn_name, shards, init_name=None, nproc=None, progress=None
     order = list(range(len(shards)))
     order = order[rot:] + order[:rot]
     results = [None] * len(shards)
+    crashes = []
     if nproc <= 1 or len(shards) <= 1:
         _init_worker(module_name, fn_name, init_name)
         for i in order:
             idx, res, err = _run_one((i, shards[i]))
+            if err and err[0] == "impl":
+                crashes.append((shards[idx], err[1]))
+                continue
             if err:
-                raise HarnessError("shard failed:\n" + err)
+                raise HarnessError("shard failed:\n" + err[1])
             results[idx] = res
+        if crashes:
+            _raise_crashes(crashes, results, module_name, fn_name)
         return results
     ctx = multiprocessing.get_context("fork")
     with ctx.Pool(min(nproc, len(shards)), initializer=_init_worker, initargs=(module_name, fn_name, init_name),
                   maxtasksperchild=maxtasks) as pool:
         done = 0
         for idx, res, err in pool.imap_unordered(_run_one, [(i, shards[i]) for i in order]):
+            if err and err[0] == "impl":
+                crashes.append((shards[idx], err[1]))
+                continue
             if err:
                 pool.terminate()
-                raise HarnessError("shard failed:\n" + err)
+                raise HarnessError("shard failed:\n" + err[1])
             results[idx] = res
             done += 1
             if progress and done % progress == 0:
                 print(f"[verif] {done}/{len(shards)} shards", file=sys.stderr, flush=True)
+    if crashes:
+        _raise_crashes(crashes, results, module_name, fn_name)
     return results
 
 
